@@ -21,11 +21,21 @@ def main(d):
             out = scratch.path("out.ndjson")
             rc, o = vlib.run_test_binary(b, "TestVerifME", {"VERIF_IN": inp, "VERIF_OUT": out})
             verdict = check_me.validate(scratch, out, par=1)
+        elif kind in ("stream", "gcpme"):
+            import pool
+            b = pool.build_pool_harness(scratch)
+            out = scratch.path("out.ndjson")
+            test, mod = ("TestVerifStream", "StreamTrace") if kind == "stream" else ("TestVerifGME", "GCPMETrace")
+            rc, o = vlib.run_test_binary(b, test, {"VERIF_IN": inp, "VERIF_OUT": out})
+            verdict = vlib.validate_chunks(scratch, out, mod, lambda ln: '"op":"reset"' in ln[:80], par=1, tag="replay")
         else:
             import pool
             b = pool.build_pool_harness(scratch)
             scripts = [json.loads(l) for l in script.split("\n") if l.strip()]
-            _, out = pool.run_scripts(scratch, b, scripts, "replay")
+            if scripts and scripts[0].get("random_job"):
+                _, out = pool.run_random(scratch, b, [x["random_job"] for x in scripts], "replay")
+            else:
+                _, out = pool.run_scripts(scratch, b, scripts, "replay")
             verdict = pool.validate_trace(scratch, out, "replay", par=1)
         for l in open(out):
             e = json.loads(l)
